@@ -1,9 +1,15 @@
 class ToolError(Exception):
     pass
 
-MC_EXCHANGE = {"name": "contract", "tla": "MC_Exchange.tla", "cfg": "MC_Exchange.cfg", "workers": 8}
+MC_EXCHANGE = {"name": "contract", "tla": "MC_Exchange.tla", "cfg": "MC_Exchange.cfg", "cfg_thorough": "MC_Exchange_thorough.cfg", "workers": 8}
 MC_READER = {"name": "reader-design(BodyReaderImpl satisfies the contract's read guards and never waits with deliverable data)",
-             "tla": "MC_BodyReaderImpl.tla", "cfg": "MC_BodyReaderImpl.cfg", "workers": 8}
+             "tla": "MC_BodyReaderImpl.tla", "cfg": "MC_BodyReaderImpl.cfg", "cfg_thorough": "MC_BodyReaderImpl_thorough.cfg", "workers": 8, "timeout": 3000}
+MC_LINES = [{"name": "line-reader-strict(read_line_strict)", "tla": "LineReader.tla", "cfg": "LineReader.cfg", "workers": 4},
+            {"name": "line-reader-lenient(read_line)", "tla": "LineReader.tla", "cfg": "LineReader_lenient.cfg", "workers": 4},
+            {"name": "line-reader-limit-per-segment(design alternative)", "tla": "LineReader.tla", "cfg": "LineReader_persegment.cfg", "workers": 4,
+             "expect_violation": "BoundedInput"}]
+TUNNEL_FAMS = [dict(gen=("harness", "tunnelreq"), runner="tunnelreq", trace="Trace_Tunnelled", threads=6, budget_ms=60000),
+               dict(gen=("harness", "tunnelreq"), runner="tunnelreq", trace="Trace_Tunnelled", threads=6, budget_ms=60000, crate="harness-rustls")]
 REPLAY_READER = {"gen": ("tlc", {"name": "reader-behaviours", "tla": "MC_BodyReplay.tla", "cfg": "MC_BodyReplay.cfg",
                                  "simulate": {"num_quick": 3000, "num_thorough": 60000, "depth": 80}}),
                  "runner": "exchange", "trace": "Trace_Exchange"}
@@ -33,13 +39,13 @@ PLAN = {
     },
     "C03": {
         "mc": [],
-        "families": [{"gen": ("tlc", {"name": "framing-table", "tla": "MC_Framing.tla", "cfg": "MC_Framing.cfg", "workers": 8}),
+        "families": [{"gen": ("tlc", {"name": "framing-table", "tla": "MC_Framing.tla", "cfg": "MC_Framing.cfg", "cfg_thorough": "MC_Framing_thorough.cfg", "workers": 8}),
                       "runner": "exchange", "trace": "Trace_Exchange", "attribute_all": True}],
         "rule": "rows of the RFC 9112 6.3 decision table enumerated by TLC (method x status x Content-Length lists x Transfer-Encoding lists x trailing octets); each row is a real exchange whose delivered octets are judged",
         "assumptions": ASSUME_X,
     },
     "C04": {
-        "mc": [],
+        "mc": MC_LINES,
         "families": [{"gen": ("tlc", {"name": "head-rows", "tla": "MC_Head.tla", "cfg": "MC_Head.cfg", "cfg_thorough": "MC_Head_thorough.cfg", "workers": 8}),
                       "runner": "head", "trace": "Trace_Head"},
                      fam("h_large", runner="head", trace="Trace_Head")],
@@ -48,7 +54,7 @@ PLAN = {
         "replay_runner": "head", "replay_trace": "Trace_Head",
     },
     "C05": {
-        "mc": [],
+        "mc": MC_LINES,
         "families": [fam("hostile", runner="hostile", trace="Trace_Hostile", budget_ms=60000),
                      fam("x_fault"), fam("x_large_fault")],
         "rule": "all strings over a nine-symbol alphabet up to length 5 (quick) / 6 (thorough) as head, as header block and as chunked body; endless constructs (status line, header line, header fields valid/duplicate/invalid-name, chunk-size line, chunk extension, CONNECT refusal body); declared-only sizes up to 2^64; seeded mutations (bit flips, splices, deletions, duplications, numeric blow-ups) of valid responses",
@@ -75,10 +81,10 @@ PLAN = {
     },
     "C07": {
         "mc": [],
-        "families": [{"gen": ("tlc", {"name": "write-sequences", "tla": "RequestWrite.tla", "cfg": "RequestWrite.cfg", "workers": 8}),
+        "families": [{"gen": ("tlc", {"name": "write-sequences", "tla": "RequestWrite.tla", "cfg": "RequestWrite.cfg", "cfg_thorough": "RequestWrite_thorough.cfg", "workers": 8}),
                       "runner": "loop", "trace": "Trace_SendLoop"},
                      fam("c07_req", runner="loop", trace="Trace_SendLoop"),
-                     {"gen": ("tlc", {"name": "hop-chains", "tla": "MC_Hops.tla", "cfg": "MC_Hops.cfg", "workers": 8}),
+                     {"gen": ("tlc", {"name": "hop-chains", "tla": "MC_Hops.tla", "cfg": "MC_Hops.cfg", "cfg_thorough": "MC_Hops_thorough.cfg", "workers": 8}),
                       "runner": "loop", "trace": "Trace_SendLoop"}],
         "rule": "RequestWrite.tla (BufWriter/ChunkedWriter model) checked by TLC for all sequences of up to 4 write calls with sizes {0,1,8191,8192,8193}, each sequence replayed through a user-defined Body (chunked and known-length); seeded random requests over methods (incl. extension tokens), paths with unicode/percent/space, param(s) with &=#+% and non-ASCII, header names/values over their alphabets, set and append, basic/bearer credentials, all body kinds and sizes around 8 KiB; body kinds through redirect chains",
         "assumptions": ASSUME_X + ["the bytes the client wrote are decoded by httparse plus a hand-written strict chunked decoder and multipart splitter (independent parsers) inside the projection"],
@@ -88,16 +94,18 @@ PLAN = {
         "mc": [],
         "families": [{"gen": ("tlc", {"name": "target-matrix", "tla": "MC_Target.tla", "cfg": "MC_Target.cfg", "workers": 8}),
                       "runner": "loop", "trace": "Trace_SendLoop"},
-                     {"gen": ("tlc", {"name": "hop-chains", "tla": "MC_Hops.tla", "cfg": "MC_Hops.cfg", "workers": 8}),
-                      "runner": "loop", "trace": "Trace_SendLoop"}],
+                     {"gen": ("tlc", {"name": "hop-chains", "tla": "MC_Hops.tla", "cfg": "MC_Hops.cfg", "cfg_thorough": "MC_Hops_thorough.cfg", "workers": 8}),
+                      "runner": "loop", "trace": "Trace_SendLoop"}] + TUNNEL_FAMS,
+        "crates": ["harness", "harness-rustls"],
         "rule": "URL shapes (scheme x port absent/default/other x domain/mixed-case/IPv4/IPv6 x path empty/root/segments x query none/some/empty x fragment x userinfo) x proxy (none, http, https; with/without credentials and explicit port) enumerated by TLC; each row is a real send() whose dial request and written request line / Host are judged",
         "assumptions": ASSUME_X + ["inside a CONNECT tunnel the inner request is not visible to the in-memory peer (TLS); its target form and Host are covered by the real-socket checks"],
         "replay_runner": "loop", "replay_trace": "Trace_SendLoop",
     },
     "C10": {
         "mc": [],
-        "families": [{"gen": ("tlc", {"name": "hop-chains", "tla": "MC_Hops.tla", "cfg": "MC_Hops.cfg", "workers": 8}),
-                      "runner": "loop", "trace": "Trace_SendLoop"}],
+        "families": [{"gen": ("tlc", {"name": "hop-chains", "tla": "MC_Hops.tla", "cfg": "MC_Hops.cfg", "cfg_thorough": "MC_Hops_thorough.cfg", "workers": 8}),
+                      "runner": "loop", "trace": "Trace_SendLoop"}] + TUNNEL_FAMS,
+        "crates": ["harness", "harness-rustls"],
         "rule": "chains of one or two redirects between URLs that differ in host, port, scheme and proxy applicability (proxied, no_proxy host, near-miss host, https target needing a tunnel), x redirect status x proxy configuration x body kind (empty, text, bytes, file, json, streaming json, form, multipart, custom) x body size, enumerated by TLC; every hop's dial, request line, Host, framing and body octets are judged",
         "assumptions": ASSUME_X + ["https hops reached directly use the in-memory transport with TLS elided; a hop that must be tunnelled ends at the ClientHello (in-memory peer does not speak TLS)"],
         "replay_runner": "loop", "replay_trace": "Trace_SendLoop",
@@ -108,7 +116,7 @@ PLAN = {
                       "runner": "proxy", "trace": "Trace_Proxy"},
                      {"gen": ("tlc", {"name": "proxy-env", "tla": "MC_Proxy.tla", "cfg": "MC_Proxy_env.cfg", "cfg_thorough": "MC_Proxy_env_thorough.cfg", "workers": 8}),
                       "runner": "proxy", "trace": "Trace_Proxy", "threads": 1},
-                     {"gen": ("tlc", {"name": "hop-chains", "tla": "MC_Hops.tla", "cfg": "MC_Hops.cfg", "workers": 8}),
+                     {"gen": ("tlc", {"name": "hop-chains", "tla": "MC_Hops.tla", "cfg": "MC_Hops.cfg", "cfg_thorough": "MC_Hops_thorough.cfg", "workers": 8}),
                       "runner": "loop", "trace": "Trace_SendLoop"}],
         "rule": "hosts = label sequences of length 1..3 over {a, b, ab} plus IPv4/IPv6 literals x no-proxy lists of 0..2 entries (incl. the empty entry, upper case) x configured proxies, enumerated by TLC and judged through ProxySettings::for_url for both schemes and both letter cases of the host; all assignments of the eight environment variables over {unset, empty, garbage, url} (thorough: also blank, socks, https url) x NO_PROXY in {unset, empty, *, list with blanks/leading dot/upper case/empty entries}; the address dialled by send() is covered by the redirect-chain family",
         "assumptions": ["environment rows run in a single-threaded process that sets the real environment variables"],
@@ -118,7 +126,7 @@ PLAN = {
         "mc": [{"name": "watchdog-design", "tla": "Watchdog.tla", "cfg": "Watchdog.cfg", "workers": 4},
                {"name": "watchdog-as-found(exits after a ping)", "tla": "Watchdog.tla", "cfg": "Watchdog_asfound.cfg", "workers": 4, "expect_violation": "NoSpuriousTimeout"},
                {"name": "watchdog-reordered(shutdown before drop)", "tla": "Watchdog.tla", "cfg": "Watchdog_reordered.cfg", "workers": 4, "expect_violation": "CutNeverComplete"}],
-        "families": [{"gen": ("tlc", {"name": "watchdog-schedules", "tla": "MC_WatchdogReplay.tla", "cfg": "MC_WatchdogReplay.cfg", "workers": 4}),
+        "families": [{"gen": ("tlc", {"name": "watchdog-schedules", "tla": "MC_WatchdogReplay.tla", "cfg": "MC_WatchdogReplay.cfg", "cfg_thorough": "MC_WatchdogReplay_thorough.cfg", "workers": 4}),
                       "runner": "wdsched", "trace": "Trace_Watchdog", "threads": 12, "budget_ms": 60000},
                      fam("rt", runner="rt", trace="Trace_Timeouts", threads=12, budget_ms=60000),
                      fam("rt_release", runner="rt", trace="Trace_Timeouts", threads=1, budget_ms=60000)],
@@ -128,7 +136,7 @@ PLAN = {
     },
     "C17": {
         "mc": [],
-        "families": [{"gen": ("tlc", {"name": "race-configs", "tla": "MC_Happy.tla", "cfg": "MC_Happy.cfg", "workers": 8}),
+        "families": [{"gen": ("tlc", {"name": "race-configs", "tla": "MC_Happy.tla", "cfg": "MC_Happy.cfg", "cfg_thorough": "MC_Happy_thorough.cfg", "workers": 8}),
                       "runner": "happy", "trace": "Trace_Happy", "threads": 12, "budget_ms": 60000}],
         "rule": "HappyEyeballs.tla (staggered spawn, one race interval per wait, drain) checked by TLC for every resolver list of up to 2 (thorough: 3) addresses per family in every family order and every assignment of {accept, refuse, black-hole}: succeeds iff some address accepts, winner accepted, honest failure, attempt order, one interval per unresponsive address, termination; every configuration is then raced for real against loopback listeners (closed port = refuse, full accept queue = black hole) through the resolver override, attempt order taken from the spawn hook",
         "assumptions": ["race interval 200 ms, client connect timeout 600 ms, slack 350 ms on elapsed time", "which accepting address wins a race is left open by the contract"],
@@ -155,17 +163,21 @@ PLAN = {
     "C16": {
         "mc": [],
         "families": [{"gen": ("tlc", {"name": "settings-ops", "tla": "MC_Settings.tla", "cfg": "MC_Settings5.cfg", "workers": 8}),
+                      "runner": "settings", "trace": "Trace_Settings"},
+                     {"gen": ("tlc", {"name": "settings-deep", "tla": "MC_Settings.tla", "cfg": "MC_Settings_sim.cfg",
+                                      "simulate": {"num_quick": 3000, "num_thorough": 150000, "depth": 13}}),
                       "runner": "settings", "trace": "Trace_Settings"}],
-        "rule": "every sequence of 5 operations over {new session, clone, session setters, session header set/append, create builder, builder setters, builder header set/append, prepare} on 2 sessions and 2 builders with colliding header names, enumerated by TLC from SettingsArc.tla (isolation checked as a TLC property); each sequence is executed on the real API and after every operation the effective settings and header fields of every live object are compared with the contract",
+        "rule": "simulated behaviours of 12 operations over all ten settings, three builders and four header names (seeded); every sequence of 5 operations over {new session, clone, session setters, session header set/append, create builder, builder setters, builder header set/append, prepare} on 2 sessions and 2 builders with colliding header names, enumerated by TLC from SettingsArc.tla (isolation checked as a TLC property); each sequence is executed on the real API and after every operation the effective settings and header fields of every live object are compared with the contract",
         "assumptions": ["settings without wire-visible effect are read through the guarded snapshot accessor (hook H4)"],
         "replay_runner": "settings", "replay_trace": "Trace_Settings",
     },
     "C12": {
         "mc": [],
-        "families": [{"gen": ("tlc", {"name": "tunnel", "tla": "MC_Tunnel.tla", "cfg": "MC_Tunnel.cfg", "workers": 8}),
+        "families": [{"gen": ("tlc", {"name": "tunnel", "tla": "MC_Tunnel.tla", "cfg": "MC_Tunnel.cfg", "cfg_thorough": "MC_Tunnel_thorough.cfg", "workers": 8}),
                       "runner": "loop", "trace": "Trace_SendLoop"},
-                     {"gen": ("tlc", {"name": "hop-chains", "tla": "MC_Hops.tla", "cfg": "MC_Hops.cfg", "workers": 8}),
-                      "runner": "loop", "trace": "Trace_SendLoop"}],
+                     {"gen": ("tlc", {"name": "hop-chains", "tla": "MC_Hops.tla", "cfg": "MC_Hops.cfg", "cfg_thorough": "MC_Hops_thorough.cfg", "workers": 8}),
+                      "runner": "loop", "trace": "Trace_SendLoop"}] + TUNNEL_FAMS,
+        "crates": ["harness", "harness-rustls"],
         "rule": "CONNECT exchanges enumerated by TLC: every reply status 100..599; cross product of statuses x refusal body sizes (0, 1, 10239, 10240, 10241, 300000) x origin domain/IPv4/IPv6 x default/explicit port x http/https proxy x credentials; 2xx and refusal heads cut at every offset; malformed heads; plus redirect chains that enter a tunnel; the write log is ordered against reads so anything written before agreement is seen",
         "assumptions": ASSUME_X + ["the in-memory proxy records the ClientHello (SNI) and closes: certificate verification against the origin's name inside the tunnel is exercised over real sockets by the C14 check"],
         "replay_runner": "loop", "replay_trace": "Trace_SendLoop",
